@@ -127,7 +127,8 @@ def run(ctx):
     exe = A.build_driver(ctx)
     lines, nsmall = gen(ctx)
     ctx.log('design step passed; driver built; %d lists (%d exhaustive small-universe)' % (len(lines), nsmall))
-    outs = A.run_lines(exe, lines)
+    keep, outs = A.run_checked(ctx, exe, lines)
+    lines = [lines[i] for i in keep]
     prej, irej = ucheck.conformance(ctx, os.path.join(A.SPEC, 'Conf_DomainAcl.tla'), os.path.join(A.SPEC, 'Conf_DomainAcl.cfg'), outs, 'domain',
                                     chunk=4000 if ctx.thorough else 1500, timeout=3000)
     pairs = sum(len(o['probes']) for o in outs)
